@@ -345,20 +345,20 @@ def main(argv):
     violations = []
     known = load_known(prop)
     if broken or corr.get('spec_failures'):
-      found = list(corr.get('spec_failures', []))
-      if not found:
-        found = mod.search(ctx, broken, corr) or []
       known_keys = {e['key'] for e in known if e.get('kind') == 'known'}
-      found = [f for f in found if f.get('key') not in known_keys]
+      found = [f for f in corr.get('spec_failures', []) if f.get('key') not in known_keys]
+      if not found and broken:
+        found = [f for f in (mod.search(ctx, broken, corr) or []) if f.get('key') not in known_keys]
       if found:
         for f in found[:3]:
           rp = write_replay(ctx, dict(kind='failing-input', broken=broken, **f))
           violations.append((rp, ''))
-      else:
+      elif broken:
         first = (corr.get('disagreements') or [{}])[0]
         rp = write_replay(ctx, dict(kind='no-failing-input-found', broken=broken,
                                     first_disagreement=first, lean_log=lean_res.get('log', '')[-3000:]))
         violations.append((rp, ' no-failing-input-found'))
+      # else: only listed known findings reproduced -> KNOWN-FINDING lines below, no violation
     # 5 known findings ------------------------------------------------------------
     for e in known:
       if e.get('kind') != 'known':
